@@ -48,8 +48,10 @@ type FuncContract struct {
 	File           string
 	Src            []string // raw lines, printed in evidence for trusted contracts
 	NoPanicSkip    bool
-	CallsUnderLock bool // may call handlers/externals while holding its lock (Agent.Close: the property's carve-out)
-	ViewResult     bool // result is an attribute-value view (C07 strict-view duty applies to re-slices)
+	Uses           []string // local axioms (laxiom) to instantiate in this function's obligations
+	CallsUnderLock bool     // may call handlers/externals while holding its lock (Agent.Close: the property's carve-out)
+	ViewResult     bool     // result is an attribute-value view (C07 strict-view duty applies to re-slices)
+	ResultType     string   // dynamic type of an interface-typed result (calls on it resolve statically)
 }
 
 type Define struct {
@@ -76,6 +78,7 @@ type Axiom struct {
 	Src      string
 	Lemma    bool
 	Quant    bool     // also handed to the solver as a quantified fact with the trigger as pattern (non-looping axioms only)
+	Local    bool     // only instantiated in functions whose contract says "uses <name>"
 	Induct   string   // induction variable (lemmas)
 	Req      ast.Expr // lemma hypothesis (may be nil)
 	Props    []string
@@ -290,7 +293,7 @@ func (cs *ContractSet) parseFile(path string) error {
 			}
 			return &Clause{Kind: kind, Src: rest, Expr: e, Props: append([]string(nil), props...), Line: where}, nil
 		}
-		if cur != nil && kw != "func" && kw != "extern" && kw != "define" && kw != "spec" && kw != "axiom" && kw != "lemma" && kw != "qaxiom" && kw != "guard" {
+		if cur != nil && kw != "func" && kw != "extern" && kw != "define" && kw != "spec" && kw != "axiom" && kw != "lemma" && kw != "qaxiom" && kw != "laxiom" && kw != "guard" {
 			cur.Src = append(cur.Src, l)
 		}
 		switch kw {
@@ -315,6 +318,8 @@ func (cs *ContractSet) parseFile(path string) error {
 			cur = nil
 		case "callsunderlock":
 			cur.CallsUnderLock = true
+		case "uses":
+			cur.Uses = append(cur.Uses, strings.Fields(rest)...)
 		case "transparent":
 			cur.Transparent = true
 		case "pure":
@@ -324,6 +329,8 @@ func (cs *ContractSet) parseFile(path string) error {
 			cur.Allocates = true
 		case "viewresult":
 			cur.ViewResult = true
+		case "resulttype":
+			cur.ResultType = rest // dynamic type of the (interface) result, e.g. *hmac
 		case "mode":
 			cur.Mode = rest
 		case "safety":
@@ -438,13 +445,13 @@ func (cs *ContractSet) parseFile(path string) error {
 			}
 			cs.Specs[sf.Name] = sf
 			cur = nil
-		case "axiom", "lemma", "qaxiom":
+		case "axiom", "lemma", "qaxiom", "laxiom":
 			// axiom name(b bytes, k int) trigger start(b, k): expr
 			m := regexp.MustCompile(`^(\w+)\s*\((.*?)\)\s*trigger\s+(\w+)\((.*?)\)\s*(?:induction\s+(\w+)\s*)?(?:requires\s+(.*?)\s*)?:\s*(.*)$`).FindStringSubmatch(rest)
 			if m == nil {
 				return fmt.Errorf("%s: bad %s: %s", where, kw, rest)
 			}
-			ax := &Axiom{Name: m[1], Trigger: m[3], Src: rest, Lemma: kw == "lemma", Induct: m[5], Props: append([]string(nil), props...), Quant: kw == "qaxiom"}
+			ax := &Axiom{Name: m[1], Trigger: m[3], Src: rest, Lemma: kw == "lemma", Induct: m[5], Props: append([]string(nil), props...), Quant: kw == "qaxiom", Local: kw == "laxiom"}
 			for _, p := range splitTop(m[2], ',') {
 				fs := strings.Fields(p)
 				if len(fs) == 2 {
